@@ -34,6 +34,25 @@ Stages of run(ctx)
      RLock); the extractor + TLC must then report the candidate and (full) the
      harness must obtain the detector report.
 
+Defects of the tree this check found and confirmed with the race detector
+(repairs in proposed_fixes/F20a..F20f-*.diff; with all six applied the model has
+no candidate and the harness no report):
+  F20a  /status/sessions ranges over Session.Channels of GetSessions' copies
+        (maps shared with the live sessions) while Apply JOIN/PARTs
+  F20b  GetMessagesStats.NickWithFallback reads session.Nick after RUnlock
+  F20c  IRCServer.Marshal reads lastProcessed without lastProcessedMu
+  F20d  IRCServer.Unmarshal takes no lock although FSM.Restore calls it after
+        ReplaceState published the server
+  F20e  package variable ircServer: FSM.Restore writes, /metrics gauge closures
+        and main()'s expiry loop read, no synchronisation
+  F20f  handleGetMessages' captured wasSuperseded flag: own goroutine vs the
+        superseding request's goroutine
+Not data races, but hazards of the tree the harness has to steer around (see
+unsafe_pair and the driver comments): handlers / Persist using a store or
+output stream that Restore closed panic (nil db, "Unexpected outputstream
+LevelDB error"), and the ConfigMu/sessionsMu lock-order inversion (GLINE,
+Marshal vs ThrottleUntil/ExpireSessions/handleStatus) can deadlock.
+
 Nothing here depends on timing: every job is bounded by iteration counts; a
 timeout, a dead harness or a TLC problem is exit 2.
 """
@@ -479,7 +498,7 @@ def run(ctx):
         if quick:
             allp = allp[:700]
         for a, b in allp:
-            add(a, b, 30 if quick else 20, "sweep")
+            add(a, b, 30 if quick else 60, "sweep")
     ctx.cov["jobs_candidate"] = sum(1 for j in jobs if j["kind"] == "candidate")
     ctx.cov["jobs_sweep"] = sum(1 for j in jobs if j["kind"] == "sweep")
     ctx.log("running %d jobs under the race detector" % len(jobs))
